@@ -260,6 +260,32 @@ theorem applyMask_list_ok {repl : Option Scalar} {xs : List Val} {ms : List Mask
     simp only [h', rewrap, Bool.false_eq_true, if_false, Except.ok.injEq] at h
     exact ⟨ys, rfl, h.symm⟩
 
+/-- an ndarray column under a list mask: the element-wise result goes through `np.asarray`, which infers ONE
+dtype for the kept elements and the appended replacement values -/
+theorem applyMask_ndarray_ok {repl : Option Scalar} {xs : List Val} {ms : List Mask} {y : Val}
+    (h : applyMask repl (.seq true xs) (.seq ms) = .ok y) :
+    ∃ ys, applySeq repl xs ms = .ok ys ∧ y = .seq true (npCast (inferDType (scalarsList ys)) ys) := by
+  simp only [applyMask] at h
+  cases h' : applySeq repl xs ms with
+  | error e => simp [h'] at h
+  | ok ys =>
+    simp only [h', rewrap, if_true] at h
+    split at h
+    · cases h
+    · simp only [Except.ok.injEq] at h
+      exact ⟨ys, rfl, h.symm⟩
+
+/-- … which is invisible when the inferred dtype is not a string dtype, or every element is a string -/
+theorem npCast_infer_id {ys : List Val}
+    (h : inferDType (scalarsList ys) ≠ .str ∨ ∀ s ∈ scalarsList ys, s.dtype = .str) :
+    npCast (inferDType (scalarsList ys)) ys = ys := by
+  rcases h with h | h
+  · exact npCast_of_ne_str h ys
+  · unfold npCast
+    split
+    · exact strfyList_id ys h
+    · rfl
+
 /-! ### row slicers in replace mode, decoder row-wise on the inputs of this batch only -/
 
 variable {X S Rv : Type}
